@@ -280,3 +280,7 @@ mod tests {
         }
     }
 }
+
+// verification hook (guard: cfg(kani), set only by `cargo kani`): harness module lives in /verif
+#[cfg(kani)]
+mod verif_kani;
